@@ -848,3 +848,14 @@ def unsuppressed(g):
     for rl in g2.rules:
         walk(rl.body)
     return g2
+
+
+def comment_pattern(g):
+    """regex of the Comment rule (the rule may be an alias of another match rule)"""
+    cr = g.rule('Comment')
+    if cr is None:
+        return None
+    b = cr.body
+    while isinstance(b, Ref):
+        b = g.rule(b.name).body
+    return b.pat
